@@ -322,7 +322,7 @@ def run_miri_big32_fail(c, prop):
 def replay(c, path, j):
     if j.get('engine') == 'schedsim':
         b = build_sched(c)
-        return subprocess.run([b, 'replay', path]).returncode
+        return c.replay_status(subprocess.run([b, 'replay', path]).returncode, j, path)
     if j.get('engine') == 'mirisim':
         miri_setup(c)
         flags = [f"-Zmiri-seed={j['miri_seed']}", f"-Zmiri-preemption-rate={j['preemption_rate']}"]
